@@ -21,7 +21,8 @@ LEVEL = "exploration"
 
 QUICK_VARIANTS = ["rel", "w32"]
 THOROUGH_VARIANTS = ["rel", "w32", "fast", "dbg"]
-QUICK_CAP = 420          # lines kept per (function, edition, variant) in the quick tier (stride subset)
+QUICK_CAP = 600          # quick tier: lines kept per (build, reduction function, edition) (stride subset) ...
+QUICK_CAP_OTHER = 300    # ... and per (build, other function, edition)
 THOROUGH_CAP = {"rel": 4000, "w32": 3000, "fast": 1200, "dbg": 1200}
 SHARD = 60000            # lines per TLC run
 DRV_TIMEOUT = 900
@@ -273,6 +274,8 @@ def run(ctx):
     keep = set()
     for g, idx in groups.items():
         cap = QUICK_CAP if ctx.quick else THOROUGH_CAP.get(g[0], 1200)
+        if ctx.quick and not g[1].startswith("zzRed"):
+            cap = QUICK_CAP_OTHER
         if len(idx) <= cap or g[1] == "u16blk":
             keep.update(idx)
         else:
@@ -284,7 +287,7 @@ def run(ctx):
     lines = [r for i, r in enumerate(lines) if i in keep]
     ev.cov["subset_dropped"] = dropped
     ev.assume("per build, function and edition at most %s recorded calls are validated (every k-th call of the enumeration); "
-              "the u16 helpers are always complete" % (QUICK_CAP if ctx.quick else json.dumps(THOROUGH_CAP)))
+              "the u16 helpers are always complete" % ("%d (reductions) / %d (others)" % (QUICK_CAP, QUICK_CAP_OTHER) if ctx.quick else json.dumps(THOROUGH_CAP)))
 
     # ---- 3. oracle lines and 4. self-test lines
     n_impl = len(lines)
